@@ -80,7 +80,7 @@ fn main() {
                 "C11" => c01::run_vec("C11", tier, seed),
                 "C12" => c01::run_vec("C12", tier, seed),
                 "C02" => c01::run("C02", tier, seed),
-                "T" => tdebug(&pos, tier),
+                "T" => tdebug(&pos, tier, seed),
                 "BF2" => bf2(&pos),
                 "REF" => refq(&pos),
                 _ => {
@@ -94,11 +94,11 @@ fn main() {
     std::process::exit(code);
 }
 
-fn tdebug(pos: &[String], tier: Tier) -> i32 {
+fn tdebug(pos: &[String], tier: Tier, seed: u64) -> i32 {
     let pat = pos.get(1).cloned().unwrap_or_default();
     let t0 = std::time::Instant::now();
     if std::env::var("VERIF_LIST").is_ok() {
-        for c in cases::all_cases(tier, 0).iter().filter(|c| c.label.contains(&pat) && c.in_law) {
+        for c in cases::all_cases(tier, seed).iter().filter(|c| c.label.contains(&pat) && c.in_law) {
             println!("{}", c.label);
         }
         return 0;
@@ -125,7 +125,7 @@ fn tdebug(pos: &[String], tier: Tier) -> i32 {
         });
     }
     let macros = std::sync::Mutex::new(ma);
-    let cases = cases::all_cases(tier, 0);
+    let cases = cases::all_cases(tier, seed);
     use rayon::prelude::*;
     let sel: Vec<&cases::Case> = cases.iter().filter(|c| c.label.contains(&pat) && c.in_law).collect();
     if std::env::var("VERIF_LIST").is_ok() {
